@@ -189,6 +189,17 @@ func H_bsdiff_real() {
 		neu = append([]byte{}, old...)
 		neu[pos] = s
 		neu[nold-2] ^= 0x55
+	case 5: // old = A T U B T, new = old + U: the appended chunk's preceding context T also occurs earlier in old, so the
+		// forward extension of one match (up to the end of old) overlaps the backward extension of the next
+		seg := func(from, n int) []byte { return append([]byte{}, old[from:from+n]...) }
+		k := pos // segment length
+		A, T, U, Bs := seg(0, k-2), seg(k, k), seg(2*k, k), seg(3*k, k-2)
+		o2 := append(append(append(append(append([]byte{}, A...), T...), U...), Bs...), T...)
+		neu = append(append([]byte{}, o2...), U...)
+		if rt.HasParam("tail") {
+			neu = append(neu, s)
+		}
+		old = o2
 	}
 	checkSeries(old, neu)
 	rt.Reach("end")
